@@ -12,6 +12,14 @@ TRUST = ('Trusted base: rustc nightly THIR/MIR for this source (same cfgs as the
          'the evidence file.')
 
 CHECKS = {
+    'C16': {
+        'technique': 'typed census of channel-map writers, structural shape check of the constructor literals (returned terms), field-wise agreement of the rank-list hand-over, sibling agreement for configured ranks',
+        'level': ('Decides that channels are created only by JOIN and configuration loading and deleted only by '
+                  'remove_user_from_channel, that a user-created channel is exactly {creator as founder+operator, no topic, default '
+                  'modes, empty lists, not preconfigured}, that configured channels carry topic/modes from their entry with '
+                  'preconfigured=true (only there) and that configured ranks are granted on join.'),
+        'note': TRUST + ' Creation/deletion conditions are decided in C07 R7.1 and C06 R6.4; TOML deserialisation is trusted.',
+    },
     'C15': {
         'technique': 're-key census driven by the typed container classification, guard entailment/equivalence for every effect of the registered NICK branch, value-identity of the moved User, announcement provenance (binding order of the old source)',
         'level': ('Decides that an accepted NICK re-keys every nick-keyed live container (a container added later without a re-key is '
